@@ -275,6 +275,44 @@ func TestGovcBoundedC08Deviations(t *testing.T) {
 				fmt.Printf("GOVC-FAIL name=c08-deviations not-supported on /r/input and /c/a/output: rpc input %v output %v, action input %v output %v, errors %v %v\n", r.RPC.Input != nil, r.RPC.Output != nil, a.RPC.Input != nil, a.RPC.Output != nil, r.Errors, a.Errors)
 			}
 		}
+		// deviate statements written on one line still take effect in written order; deviations
+		// written in a submodule of the deviating module are applied (and a missing target reported)
+		{
+			evals++
+			ms := NewModules()
+			for i, src := range []string{
+				`module m { namespace "urn:m"; prefix m; leaf a { type string; default "old"; } leaf b { type string; } leaf c { type string; } }`,
+				`module d { namespace "urn:d"; prefix d; import m { prefix m; } include ds; deviation "/m:a" { deviate delete { default "old"; } deviate add { default "new"; } } }`,
+				`submodule ds { belongs-to d { prefix d; } import m { prefix m; } deviation "/m:b" { deviate not-supported; } deviation "/m:c" { deviate add { config false; } } }`} {
+				if err := ms.Parse(src, fmt.Sprintf("ol%d.yang", i)); err != nil {
+					fmt.Printf("GOVC-FAIL name=c08-deviations fixed case does not parse: %v\n", err)
+				}
+			}
+			if errs := ms.Process(); len(errs) > 0 {
+				fmt.Printf("GOVC-FAIL name=c08-deviations delete and add on one line, deviations in a submodule: %v\n", errs)
+			} else {
+				e := ToEntry(ms.Modules["m"])
+				if a := e.Dir["a"]; a == nil || len(a.Default) != 1 || a.Default[0] != "new" {
+					fmt.Printf("GOVC-FAIL name=c08-deviations \"deviate delete {default old;} deviate add {default new;}\" on one line: default is not [new]\n")
+				}
+				if e.Dir["b"] != nil || e.Dir["c"] == nil || e.Dir["c"].Config != TSFalse {
+					fmt.Printf("GOVC-FAIL name=c08-deviations the deviations written in the submodule of the deviating module are not applied\n")
+				}
+			}
+			evals++
+			ms = NewModules()
+			for i, src := range []string{
+				`module m { namespace "urn:m"; prefix m; leaf a { type string; } }`,
+				`module d { namespace "urn:d"; prefix d; include ds; }`,
+				`submodule ds { belongs-to d { prefix d; } import m { prefix m; } deviation "/m:nosuch" { deviate not-supported; } }`} {
+				if err := ms.Parse(src, fmt.Sprintf("ms%d.yang", i)); err != nil {
+					fmt.Printf("GOVC-FAIL name=c08-deviation-errors fixed case does not parse: %v\n", err)
+				}
+			}
+			if errs := ms.Process(); len(errs) == 0 {
+				fmt.Printf("GOVC-FAIL name=c08-deviation-errors a deviation of a missing target written in a submodule is not reported\n")
+			}
+		}
 		for run := 0; run < 12; run++ {
 			evals++
 			ms := NewModules()
